@@ -21,13 +21,14 @@
     alphabet = {"", u8, L, u, U} x every text of length <= 3 over {a, b, NUL} (40 texts: equal literals, prefixes of
     each other, literals equal up to an embedded NUL at the first/middle/last position, literals that differ only in
     length, empty literals, the same text in every encoding).
-    (e1) every ordered PAIR over the alphabet (quick: 5 kinds x texts of length <= 2, plus all 40 texts as plain
-    char literals) and every ordered TRIPLE over a sub-alphabet (quick: 7 char literals over {a, NUL}; thorough:
-    {"", L} x length <= 2), each tuple ALONE in its translation unit, in every context of E_CONTEXTS (pointer
-    initialiser at file scope / static local / automatic / thread-local, pointer into the literal, array initialiser
-    of size n, n+2, n-1 at file scope / static local / automatic, subscripted literal, sizeof, tables, struct
-    members, address comparison): every byte up to sizeof is read back by a gcc-compiled reader and compared with
-    the model; a gcc twin of the same units confirms the model.  Every single literal also as -fPIC object in a PIE.
+    (e1) every ordered PAIR over the alphabet (quick: the union of the pairs over 40 plain char texts, over the 13
+    texts of length <= 2 within each kind, over the 4 texts of length <= 1 across all kinds, and over the 5 kinds
+    of each text of length <= 2; thorough: all 200 x 200) and every ordered TRIPLE over a sub-alphabet (quick: 7 char
+    literals over {a, NUL}; thorough: {"", L} x length <= 2), each tuple ALONE in its translation unit, in every
+    context of E_CONTEXTS (pointer initialiser at file scope / static local / automatic / thread-local, pointer
+    into the literal, array initialiser of size n, n+2, n-1 at file scope / static local / automatic, subscripted
+    literal, sizeof, tables, struct members, address comparison): every byte up to sizeof is read back by a
+    gcc-compiled reader and compared with the model; a gcc twin of the same units confirms the model.  Every single literal also as -fPIC object in a PIE.
     (e2) the pairs of a core alphabet packed ~100 units per program, half of them in the library unit and half in
     the main unit, built by chibicc in every configuration of part (d).
 """
@@ -532,7 +533,9 @@ def _b_batch(args):
     for idx, case in enumerate(cases):
         st, devs, obj, files = b_compile(chibicc, wd, case, idx)
         res.append([case, st, devs, files])
-        if st == "ok" and obj and "live-function-not-emitted" not in devs:
+        # a missing live function or an undefined global reference to a static function cannot link: the symbol-table
+        # deviation is the observation, no link is attempted
+        if st == "ok" and obj and "live-function-not-emitted" not in devs and "global-reference-to-static-inline" not in devs:
             tolink.append((idx, obj, b_model(case)[1]))
     GRP = 40
     # units whose symbol table already deviates are linked alone (a failing member would make the whole group bisect)
@@ -1201,13 +1204,18 @@ def e_alphabet(kinds, maxlen):
 
 
 def e_tuples(quick):
-    """the enumerated tuples, as (name of the bound, list of tuples)"""
+    """the enumerated tuples: (singles, ordered pairs, ordered triples)"""
     K = L.STR_KIND_ORDER
-    A = e_alphabet(K, 2)                                        # 5 kinds x 13 texts
-    B = e_alphabet([""], 3)                                     # char literals, 40 texts
+    if quick:
+        alphas = [e_alphabet([""], 3)]                           # plain char literals: all 40 texts
+        alphas += [e_alphabet([k], 2) for k in K]                # each kind: the 13 texts of length <= 2
+        alphas += [e_alphabet(K, 1)]                             # all kinds mixed: the 4 texts of length <= 1
+        alphas += [[(k, t) for k in K] for t in L.str_texts(2)]  # the same text in every kind
+    else:
+        alphas = [e_alphabet(K, 3)]                              # all 200 literals
     seen = set()
     pairs = []
-    for alpha in ([A, B] if quick else [e_alphabet(K, 3)]):
+    for alpha in alphas:
         for x in alpha:
             for y in alpha:
                 if (x, y) not in seen:
@@ -1695,7 +1703,8 @@ def run(ctx):
     ctx.cover(rule="non-trivial = (a) sequence of >= 2 declarations or one that defines; (b) graph with >= 1 edge and >= 1 root; "
                    "(c) set whose units differ or that the model calls ill-formed; (d) every program x configuration; "
                    "(e) every tuple of >= 2 string literals over the alphabet {'',u8,L,u,U} x texts of length <= 3 over {a,b,NUL} "
-                   "(pairs: quick 5 kinds x length <= 2 plus char x length <= 3, thorough all 200 literals; triples: quick 7 char "
+                   "(pairs: quick = char x length <= 3, each kind x length <= 2, all kinds x length <= 1, each text of length <= 2 x all kinds; "
+                   "thorough all 200 x 200 literals; triples: quick 7 char "
                    "literals over {a,NUL}, thorough {'',L} x length <= 2) alone in a unit x all contexts of e_contexts, and every "
                    "packed program x configuration; judged on content bytes up to sizeof, never on address identity. "
                    "Oracle: constraints from models/c15_linkage.py (C11 6.2.2, 6.9.2, 6.7.4, 6.7.1 + -fcommon/-fno-common), "
